@@ -150,4 +150,67 @@ use std::collections::HashMap;
     proof { assert(contents@.take(contents@.len() as int) =~= contents@); }
 //@end
 
+//@import merge_markers
+
+//@fn id=build_remove_marker file=code/remover.rs name=build_remove_marker in="impl Remover" props=C01,C02,C03,C04,C15
+//@ret r
+//@requires
+    all_el_wf(contents@),
+    exists|lo: int, hi: int| wf_forest(collect_spec(*self, contents@, false).0, lo, hi),
+//@ensures label=build_remove_marker_post props=C02,C03,C04,C15
+    mm_post(collect_spec(*self, contents@, false).0, r@),
+//@end
+
+//@fn id=remove file=code/remover.rs name=remove in="impl Remover" props=C01,C02,C03,C04
+//@ret r
+//@requires
+    all_el_wf(content@),
+    exists|lo: int, hi: int| wf_forest(collect_spec(*self, content@, false).0, lo, hi),
+    forall|x: usize| #[trigger] forest_endpoint(collect_spec(*self, content@, false).0, x) ==> x <= raw.spec_bytes().len() && cb(raw.spec_bytes(), x as int),
+//@ensures label=remove_deletes_markers props=C01,C02,C03
+    mm_post(collect_spec(*self, content@, false).0, r.1@),
+    wf_ranges(marker_ranges(r.1@), raw.spec_bytes()),
+    encode_utf8(r.0@) == del_from(raw.spec_bytes(), marker_ranges(r.1@), 0),
+//@ensures label=remove_identity props=C04
+    r.1@.len() == 0 ==> r.0@ == raw@,
+//@loop 1 iter=it
+//@invariant
+    wf_ranges(marker_ranges(markers@), raw.spec_bytes()),
+    it.seq() == markers@.as_ref().reverse(),
+    encode_utf8(new_content@) == del_from(raw.spec_bytes(), marker_ranges(markers@), markers@.len() - it.index@),
+    markers@.len() == 0 ==> new_content@ == raw@,
+//@at body-start
+    hide(collect_spec); hide(forest_endpoint); hide(forest_covered); hide(wf_forest); hide(all_el_wf);
+//@at before "let mut new_content"
+    proof {
+        let b = raw.spec_bytes();
+        let m = marker_ranges(markers@);
+        assert forall|i: int| 0 <= i < m.len() implies (#[trigger] m[i]).start <= m[i].end <= b.len()
+            && is_char_boundary(b, m[i].start as int) && is_char_boundary(b, m[i].end as int) by {
+            assert(m[i] == markers@[i].0);
+        }
+        assert forall|i: int, j: int| 0 <= i < j < m.len() implies (#[trigger] m[i]).end <= (#[trigger] m[j]).start by {
+            assert(m[i] == markers@[i].0 && m[j] == markers@[j].0);
+        }
+        lemma_bytes_valid(raw);
+        lemma_del(b, m, m.len() as int);
+    }
+//@at loop 1 start
+    broadcast use {axiom_rb_range_start, axiom_rb_range_end};
+    let ghost __k = markers@.len() - 1 - it.index@;
+    let ghost __before = encode_utf8(new_content@);
+    proof {
+        lemma_bytes_valid(raw);
+        lemma_del(raw.spec_bytes(), marker_ranges(markers@), __k + 1);
+        assert(marker_ranges(markers@)[__k] == markers@[__k].0);
+    }
+//@at loop 1 end
+    proof {
+        reveal_strlit("");
+        assert("".spec_bytes() =~= Seq::<u8>::empty());
+        let w = marker_ranges(markers@);
+        assert(encode_utf8(new_content@) =~= __before.subrange(0, w[__k].start as int) + __before.subrange(w[__k].end as int, __before.len() as int));
+    }
+//@end
+
 } // mod remover
